@@ -27,8 +27,32 @@ def gen(rng, index, tier):
     return {"dataset": raw, "scheme": sch, "candidate": cand, "meta": meta}
 
 
+SMALL_SCHEMES = [
+    {"b": [0, 1, 40, 1600, 64000, 2560000], "t": [102400000, 102400000, 0, 4096000000, 4096000000, 163840000000], "scale": 1,
+     "family": "fingerprint"},
+    {"b": [0, 2, 2, 0, 2, 2], "t": [2, 2, 0, 2, 2, 0], "scale": 2, "family": "preset"},
+    {"b": [0, 8, 3, 1, 5, 7], "t": [2, 2, 0, 6, 6, 1], "scale": 8, "family": "grid"},
+]
+
+
 def fixed_cases(tier):
-    return []
+    """thorough: EXHAUSTIVE small scope — every dataset of <= 2 rankings (with ties, incomplete, empty) over <= 3
+    elements x every complete candidate x three schemes (fingerprint, preset, one with all 12 penalties distinct)"""
+    if tier != "thorough":
+        return []
+    cases = []
+    rks = lib.all_rankings_over_subsets([0, 1, 2])
+    for i, r1 in enumerate(rks):
+        for r2 in [None] + rks[i:]:
+            raw = [r1] if r2 is None else [r1, r2]
+            elems = lib.dataset_elems(raw)
+            if not elems:
+                continue
+            for cand in lib.weak_orders(elems):
+                for sch in SMALL_SCHEMES:
+                    cases.append({"dataset": raw, "scheme": sch, "candidate": cand,
+                                  "meta": {"family": "exhaustive-small", "kind": "int", "n": len(elems), "m": len(raw)}})
+    return cases
 
 
 def impl(case):
